@@ -76,17 +76,17 @@ CHECKS = {
     ),
     'C04': dict(
         level='exploration',
-        batches=[dict(scenario='c04decvar', flavour='P', quick=6000, thorough=200000, corpus=dict(quick=600, thorough=4000)),
-                 dict(scenario='c04decvar', flavour='A', quick=1500, thorough=30000, corpus=dict(quick=600, thorough=4000)),
-                 dict(scenario='c04decvar', flavour='N', quick=1500, thorough=30000, corpus=dict(quick=600, thorough=4000))],
+        batches=[dict(scenario='c04decvar', flavour='P', quick=24000, thorough=600000, corpus=dict(quick=600, thorough=4000)),
+                 dict(scenario='c04decvar', flavour='A', quick=4500, thorough=60000, corpus=dict(quick=600, thorough=4000)),
+                 dict(scenario='c04decvar', flavour='N', quick=9000, thorough=100000, corpus=dict(quick=600, thorough=4000))],
         rule='frame sources: compressor output under random parameters/dictionaries (5/8), spec-valid exotic frames from tests/decodecorpus.c seeded by the run root (2/8), wire-faulted frames the reference still accepts (1/8); each decoded through 8 paths (one-shot, simple API, streaming under the plan segmentation, streaming with disableHuffmanAssembly, stable output buffer, buffer-less, in-place, DDict cold+warm) with the decoder coins (HUF X1<->X2, prefetch sequence decoder, BMI2 off) set per path; distinct = distinct plan signature; non-trivial = reference output non-empty',
         real=REAL_COMMON + ['tests/decodecorpus.c (repository generator, built stand-alone) as frame source'], stub=['independent reference decoder R (ref/)', 'decoder-variant coins decided by the simulator (guarded hooks)', 'allocator'],
         assumptions=['quantifier is over frames R accepts: corpus or faulted frames R rejects are skipped and counted (probes c04.*_rejected_by_R)', 'flavour N = build variant with ZSTD_DISABLE_ASM and DYNAMIC_BMI2=0'],
     ),
     'C03': dict(
         level='exploration',
-        batches=[dict(scenario='c03fuzz', flavour='A', quick=5000, thorough=150000, corpus=dict(quick=600, thorough=4000)),
-                 dict(scenario='c03fuzz', flavour='P', quick=5000, thorough=150000, corpus=dict(quick=600, thorough=4000))],
+        batches=[dict(scenario='c03fuzz', flavour='A', quick=30000, thorough=600000, corpus=dict(quick=600, thorough=4000)),
+                 dict(scenario='c03fuzz', flavour='P', quick=40000, thorough=1000000, corpus=dict(quick=600, thorough=4000))],
         rule='1-4 wire faults (bit flip, header bit flip, truncation, smear, stale splice, zeroed 4 KiB page, appended garbage, duplicated segment, length-field bump) on valid traffic (compressor frames, decodecorpus frames, legacy frames) or pure garbage with/without magic, damaged dictionary store; fed to 8 decode paths x 4 capacity modes + inspectors + block API + dictionary loaders; distinct = distinct plan signature',
         real=REAL_COMMON, stub=['the wire and the dictionary store (faults)', 'decoder-variant coins', 'allocator'],
         assumptions=['structure-preserving seeded mutation, not coverage-guided fuzzing: weaker than libFuzzer for deep near-valid inputs', 'streaming decoders run with windowLogMax 25 so that lying window descriptors cannot exhaust memory', 'flavour A (ASan+UBSan) is the detector; P adds guard-zone checks at higher volume'],
@@ -101,7 +101,7 @@ CHECKS = {
     ),
     'C06': dict(
         level='exploration',
-        batches=[dict(scenario='c06cap', flavour='P', quick=6000, thorough=200000), dict(scenario='c06cap', flavour='A', quick=1500, thorough=40000)],
+        batches=[dict(scenario='c06cap', flavour='P', quick=30000, thorough=600000), dict(scenario='c06cap', flavour='A', quick=6000, thorough=100000)],
         rule='per run one (input, parameter vector, dictionary, entry point of 5: compress2 / compressCCtx / usingDict / usingCDict / single-pass stream end): destination capacity swept over ALL values 0..bound+8 when the input is <= 300 bytes (half of the runs), else over the edges {0,1,5,12,result-1,result,result+1,bound-1,bound,bound+k} plus 5 random; decompression capacity swept likewise; inspectors over 1-4 frames with a skippable frame; distinct = distinct plan signature; non-trivial = more than 10 capacities tried (probe c06.capacities_tried = total)',
         real=REAL_COMMON, stub=['destination / source buffers: exactly sized with guard zones (poisoned under ASan)', 'independent frame walker for the inspector relations', 'allocator'],
         assumptions=['the universal claim over adversarial INPUTS for compressBound is input generation (random, incompressible and splitter-fooling generators), not simulation: only the capacity axis is treated as a fault dimension', 'multithreaded compression is not part of this scenario'],
@@ -109,14 +109,14 @@ CHECKS = {
     ),
     'C14': dict(
         level='exploration',
-        batches=[dict(scenario='c14budget', flavour='P', quick=7200, thorough=200000), dict(scenario='c14budget', flavour='A', quick=1800, thorough=40000)],
+        batches=[dict(scenario='c14budget', flavour='P', quick=28800, thorough=400000), dict(scenario='c14budget', flavour='A', quick=5400, thorough=80000)],
         rule='9 variants in rotation: static CCtx one-shot (estimateCCtxSize(L), level l<=L with level 0 = default), static CStream with flushes, static CCtx / CStream sized by *_usingCParams with exactly those cParams, static DCtx + static DStream sized from the frame (decoded through a 4 KiB bounce buffer), static CDict/DDict, heap DStream under the accounting allocator against a window limit (with and without dictionary), sizeof_* vs live bytes over a 3-frame history; distinct = distinct plan signature',
         real=REAL_COMMON, stub=['allocator seam as monitor: libc allocations trapped (wrap) while static contexts work; accounting allocator with peak/live bytes for heap contexts', 'guard-zoned caller-provided workspaces of exactly estimate bytes'],
         assumptions=['"level l <= L" is over effective levels (0 = ZSTD_CLEVEL_DEFAULT)', 'the sweep over levels / cParams / inputs is generated workload (rides along); the simulated dimension is the allocator as enforcer and monitor'],
     ),
     'C08': dict(
         level='exploration',
-        batches=[dict(scenario='c08dict', flavour='P', quick=8000, thorough=200000), dict(scenario='c08dict', flavour='A', quick=1600, thorough=30000), dict(scenario='c08dict', flavour='T', quick=800, thorough=12000)],
+        batches=[dict(scenario='c08dict', flavour='P', quick=16000, thorough=400000), dict(scenario='c08dict', flavour='A', quick=3200, thorough=60000), dict(scenario='c08dict', flavour='T', quick=1200, thorough=20000)],
         rule='per run: input x parameters x dictionary (raw content of any length incl. <8 bytes, structured via ZDICT_finalizeDictionary, 1/5 with 1-6 bit flips in the entropy header kept only if both loaders accept) x compress supply mode (usingDict, CDict byCopy/byRef, loadDictionary, refCDict, refPrefix; forceAttachDict history on a reused context) x decode supply mode (usingDict, DDict, loadDictionary, refDDict stream, multi-DDict table, refPrefix); every 3rd run a decoder-side store fault (other ID / same ID other content / truncated / bit flip); every 5th run one CDict+DDict shared by two simulated caller threads; distinct = distinct plan signature',
         real=REAL_COMMON, stub=['the decoder-side dictionary store (faults)', 'pthread primitives (shared-dictionary runs, TSan flavour)', 'independent decoder for conformance with dictionaries', 'allocator'],
         assumptions=['supply-mode x level x dictionary-structure matrix is generated workload; the simulated dimensions are the two-party dictionary store and cross-thread sharing', 'same-ID-other-content without checksum: no claim (undetectable by design)'],
@@ -150,7 +150,7 @@ CHECKS = {
     ),
     'C20': dict(
         level='exploration',
-        batches=[dict(scenario='c20seek', flavour='P', quick=16000, thorough=800000), dict(scenario='c20seek', flavour='A', quick=1200, thorough=60000)],
+        batches=[dict(scenario='c20seek', flavour='P', quick=120000, thorough=3000000), dict(scenario='c20seek', flavour='A', quick=12000, thorough=300000)],
         rule='one archive per run: content 0..300 KiB (thorough 2 MiB), maxFrameSize in {1..64, 64..4 K, 1 K..200 K, 2^30, 0}, checksum flag, writer call history (input slices, output capacities down to 1 byte, explicit endFrame points, endStream into small buffers); reader on memory / stdio FILE (fopencookie) / callbacks in turn, 3-30 (thorough 60) range or whole-frame reads placed at random, continuing, frame-start, frame-end, backwards and tail positions; one run in three fails the k-th (and a later) storage operation, stdio reads may be short; one run in four corrupts the stored archive (6 kinds); distinct = distinct plan signature; non-trivial = the reader history ran (or a corrupted archive was refused at init)',
         real=REAL_COMMON + ['contrib/seekable_format/zstdseek_compress.c, zstdseek_decompress.c, unmodified'],
         stub=['the storage under the reader is the simulator (memory image with a fault plan, exposed as callbacks or as a FILE through fopencookie)', 'independent frame walk + independent decoder for the layout and conformance of the archive'],
